@@ -216,6 +216,9 @@ class Lexer:
                                "for multiline strings instead.\n"
                                "This will become a hard error in a future Meson release.")
                         mlog.warning(mlog.code_line(msg, self.getline(line_start), col), location=BaseNode(lineno, col, filename))
+                        lines = value.split('\n')
+                        lineno += len(lines) - 1
+                        line_start = loc - len(lines[-1])
                     value = value[2 if tid == 'fstring' else 1:-1]
                 elif tid in {'multiline_string', 'multiline_fstring'}:
                     value = value[4 if tid == 'multiline_fstring' else 3:-3]
@@ -749,7 +752,17 @@ class Parser:
                 self.current = next(self.stream)
 
         except StopIteration:
-            self.current = Token('eof', '', self.current.line_start, self.current.lineno, self.current.colno + self.current.bytespan[1] - self.current.bytespan[0], (0, 0), None)
+            line_start = self.current.line_start
+            lineno = self.current.lineno
+            colno = self.current.colno + self.current.bytespan[1] - self.current.bytespan[0]
+            if self.current.tid in ALL_STRINGS:
+                # The last token may span several lines
+                text = self.lexer.code[self.current.bytespan[0]:self.current.bytespan[1]]
+                if '\n' in text:
+                    lineno += text.count('\n')
+                    line_start = self.current.bytespan[0] + text.rfind('\n') + 1
+                    colno = self.current.bytespan[1] - line_start
+            self.current = Token('eof', '', line_start, lineno, colno, (0, 0), None)
 
     def getline(self) -> str:
         return self.lexer.getline(self.current.line_start)
